@@ -593,6 +593,19 @@ func (sc *SpecCtx) fieldOf(x *SX, base Val, name string) Val {
 	return cur
 }
 
+// structField resolves an `all T.f` assigns location to the struct type and field index.
+func (sc *SpecCtx) structField(x *SX) (types.Type, int) {
+	ty := sc.lookupType(x.Args[0].Op)
+	if _, ok := sc.vc.under(ty).(*types.Struct); !ok {
+		panic(engErr("assigns all: " + x.Args[0].Op + " is not a struct type"))
+	}
+	_, path := lookupFieldAnyPkg(ty, x.Op)
+	if len(path) != 1 {
+		panic(engErr("assigns all: no direct field " + x.Op + " in " + x.Args[0].Op))
+	}
+	return ty, path[0]
+}
+
 func lookupFieldAnyPkg(t types.Type, name string) (types.Object, []int) {
 	if p, ok := t.Underlying().(*types.Pointer); ok {
 		t = p.Elem()
@@ -716,6 +729,32 @@ func (sc *SpecCtx) call(x *SX) Val {
 			return Val{Ty: specBool, T: lt(sArr(v.T), sc.allocBase())}
 		}
 		return Val{Ty: specBool, T: lt(v.T, sc.allocBase())}
+	case "deref":
+		// deref(p): the value stored in the cell p points to (p a pointer to a non-struct)
+		need(1)
+		v := sc.eval(args[0])
+		pt, ok := vc.under(v.Ty).(*types.Pointer)
+		if !ok {
+			sc.fail(x, "pointer expected")
+		}
+		return Val{Ty: vc.resolve(pt.Elem()), T: sc.load(vc.locOfPtr(v))}
+	case "entry":
+		// entry(p): the value parameter p had on entry (parameters are mutable locals;
+		// inside loop invariants a plain name denotes the current value)
+		need(1)
+		if args[0].K != "id" {
+			sc.fail(x, "parameter name expected")
+		}
+		v, ok := vc.entryVars[args[0].Op]
+		if !ok {
+			sc.fail(x, "no parameter named "+args[0].Op)
+		}
+		return v
+	case "bigval":
+		// bigval(p): the mathematical integer held by the *big.Int p
+		need(1)
+		v := sc.eval(args[0])
+		return Val{Ty: specInt, T: vc.bigVal(sc.st, v.T)}
 	case "live":
 		// live(x): x's reference is below the current allocation counter (so anything
 		// allocated from here on is a different object)
@@ -987,6 +1026,10 @@ func (sc *SpecCtx) unchangedOld(x *SX, arg *SX) Val {
 	}
 	et := sc.lookupType(name)
 	comp, srt := vc.elemComp(et)
+	if isBigInt(vc.resolve(et)) {
+		// unchangedOld(big.Int): every big integer that existed at entry keeps its value
+		comp, srt = bigComp, bigSort
+	}
 	now := vc.heapGet(sc.st, comp, srt)
 	was := vc.heapGet(sc.old, comp, srt)
 	vc.ctr["qv"]++
